@@ -88,7 +88,7 @@ class Report:
             with open(path, "w") as fh:
                 json.dump(v, fh, indent=1, default=str)
             site = (" at %s" % v["site"]) if v["site"] else ""
-            print("  rule %s%s: %s" % (v["rule"], site, v["msg"]))
+            print("  rule %s%s [%s]: %s" % (v["rule"], site, v["key"], v["msg"]))
             print("VIOLATION property=%s replay=%s" % (self.pid, path))
         evaluations = sum(r["instances"] for r in self.rules.values())
         distinct = set()
